@@ -805,9 +805,12 @@ impl<'r> Printer<'r> {
         let use_seq = !blk || self.rng.chance(if self.explicit { 1 } else { 1 }, if self.explicit { 2 } else { 8 });
         if use_seq {
             // `seq a in seq b in c`  /  `seq a` NEWLINE `seq b` NEWLINE `c`
+            // `at_block`: the next statement starts on its own line at the block column
+            let must_break = xs[xs.len() - 1].needs_block();
+            let mut at_block = blk;
             for (i, x) in xs.iter().enumerate() {
                 if i + 1 == xs.len() {
-                    self.expr(x, Pos::Body, blk);
+                    self.expr(x, Pos::Body, at_block);
                 } else {
                     self.w("seq");
                     self.sp();
@@ -815,13 +818,16 @@ impl<'r> Printer<'r> {
                     if self.explicit {
                         self.sp();
                         self.w("in");
-                        if blk && self.rng.chance(1, 2) {
+                        if blk && (must_break || self.rng.chance(1, 2)) {
                             self.nl(c0);
+                            at_block = blk;
                         } else {
                             self.sp();
+                            at_block = false;
                         }
                     } else {
                         self.nl(c0);
+                        at_block = blk;
                     }
                 }
             }
